@@ -9,6 +9,8 @@ import random
 import re
 import sys
 import tempfile
+import atexit
+import shutil
 
 n_files, seed = int(sys.argv[1]), int(sys.argv[2])
 rng = random.Random(seed)
@@ -130,17 +132,28 @@ def gen_cif():
                   'has_adp_col': has_adp_col}
 
 
+_WORKDIR = tempfile.mkdtemp(prefix='c17.', dir='/dev/shm')
+atexit.register(shutil.rmtree, _WORKDIR, True)
+
+
+def _write(name, text):
+    """every file of this process goes to the same path and is padded to a multiple of 4096 bytes, as a program that
+    rewrites its input in place would produce it: a reader that remembers a file by name (and size) shows here"""
+    path = os.path.join(_WORKDIR, name)
+    data = text.encode()
+    data += b'\n' * (-len(data) % 4096)
+    with open(path, 'wb') as f:
+        f.write(data)
+    return path
+
+
 def check_cif(text, exp):
-    fd, path = tempfile.mkstemp(suffix='.cif', dir='/dev/shm')
-    os.write(fd, text.encode())
-    os.close(fd)
+    path = _write('structure.cif', text)
     try:
         bl = structure.build_atomlist()
         bl.CIFread(ciffile=path)
     except Exception as e:
         return 'CIFread raised %r' % (e,)
-    finally:
-        os.unlink(path)
     al = bl.atomlist
     if any(abs(a - round(b, 5)) > 1e-9 for a, b in zip(al.cell, exp['cell'])):
         return 'cell %r != %r' % (al.cell, exp['cell'])
@@ -266,7 +279,7 @@ def gen_pdb():
     for i in range(rng.randint(1, 12)):
         el = rng.choice(ELEMENTS)
         xyz = [round(rng.uniform(-20, 60), 3) for _ in range(3)]
-        occ, b = round(rng.uniform(0.1, 1.0), 2), round(rng.uniform(2, 60), 2)
+        occ, b = round(rng.uniform(0.1, 1.0), 2), round(rng.choice([rng.uniform(2, 60), rng.uniform(2, 60), rng.uniform(100, 400), 0.0, 99.99, 100.0]), 2)
         rec = rng.choice(['ATOM  ', 'HETATM'])
         lab = ('%s%d' % (el.upper(), i + 1))[:4]
         lines.append('%s%5d %-4s %3s A%4d    %8.3f%8.3f%8.3f%6.2f%6.2f          %2s' % (rec, i + 1, lab, 'RES', i + 1, xyz[0], xyz[1], xyz[2], occ, b, el.upper().rjust(2)))
@@ -275,16 +288,12 @@ def gen_pdb():
 
 
 def check_pdb(text, exp):
-    fd, path = tempfile.mkstemp(suffix='.pdb', dir='/dev/shm')
-    os.write(fd, text.encode())
-    os.close(fd)
+    path = _write('structure.pdb', text)
     try:
         bl = structure.build_atomlist()
         bl.PDBread(path)
     except Exception as e:
         return 'PDBread raised %r for symbol %r' % (e, exp['symbol'])
-    finally:
-        os.unlink(path)
     al = bl.atomlist
     if any(abs(a - b) > 1e-9 for a, b in zip(al.cell, exp['cell'])):
         return 'cell %r' % (al.cell,)
